@@ -2,6 +2,7 @@
    source).  "Leaves nothing behind" in terms of descriptors / threads / semaphores is C20 (Model/Ledger.v). *)
 From Coq Require Import List Arith Bool.
 From LokyV Require Import Lib.LedgerLib Lib.PoolLib Gen.Ledger Gen.Pool Model.Pool Proofs.PoolThm.
+From LokyV Require Model.Wake Proofs.WakeThm.
 Import ListNotations.
 
 (* no history without kill_workers=True ever fails a future with ShutdownExecutorError *)
@@ -31,3 +32,17 @@ Theorem C05_structure :
   /\ shutdown_joins_manager_when_wait = true /\ shutdown_flags_then_wakes = true.
 Proof. repeat split; reflexivity. Qed.
 Print Assumptions C05_structure.
+
+(* shutdown(wait=True) returns: on Model/Wake.v a manager that was asked to stop always has a step to make until it has left, once
+   the dispatched jobs have finished -- whatever was submitted, cancelled or completed before (H11 is the failing case on the
+   pinned source); and when it leaves its table is empty *)
+Theorem C05_shutting_down_manager_is_never_stuck :
+  forall es, let s := Wake.run es Wake.ws0 in
+    Wake.shut s = true -> Wake.ph s <> Wake.MExit -> Wake.nr s = 0 -> Wake.step s Wake.Mgr <> s.
+Proof. exact WakeThm.shutting_down_manager_is_never_stuck. Qed.
+Print Assumptions C05_shutting_down_manager_is_never_stuck.
+
+Theorem C05_manager_leaves_an_empty_table :
+  forall es, let s := Wake.run es Wake.ws0 in Wake.ph s = Wake.MExit -> Wake.in_table s = 0 /\ Wake.shut s = true.
+Proof. exact WakeThm.manager_leaves_an_empty_table. Qed.
+Print Assumptions C05_manager_leaves_an_empty_table.
